@@ -5,6 +5,7 @@ All statements are about the executable model in `Model.lean` (tied to `tornado/
 correspondence check) and are quantified over every operation sequence / send script.
 -/
 import TornadoModel.C12.Lemmas
+import TornadoModel.C12.Trace
 namespace TornadoModel.C12
 
 /-! ## the internal FIFO buffer (`_StreamBuffer`) -/
@@ -310,10 +311,34 @@ example :
     r.1.closed = false ∧ r.1.buf.size = 0 ∧ sentBytes (events r.2) = [1, 2, 3]
       ∧ resolvedIds (events r.2) = [0, 1] := by decide
 
-/-! ## stretch (not proved; exercised by the correspondence stream only) -/
+/-! ## the model against the executable oracle -/
 
-/-- the model's own traces pass the executable trace checker that the harness applies to the implementation -/
-def model_trace_ok_goal : Prop :=
-  ∀ (m : Option Nat) (ops : List Op), Spec.check (Spec.SSt.init m) ops (run (St.init m) ops).2 = true
+/-- **model_trace_ok** — for every limit, every sequence of writes / writable events and every send schedule
+(partial sends, would-block, send errors) the trace produced by the model is accepted by the executable trace
+checker `Spec.check` that the harness applies to the real `BaseIOStream`.  This ties the theorems above
+(`sent_is_concat`, `future_after_bytes`, `futures_in_order`, `refusal_no_side_effect`, `refusal_iff_exceeds`,
+`drained_all_sent`) to the oracle: the oracle does not reject the behaviour they describe.  Proof: simulation
+`absS` between model and checker states (`Trace.lean`: `sendLoop_shape`, `handleWrite_walk`, `sstep_step`). -/
+theorem model_trace_ok :
+    ∀ (m : Option Nat) (ops : List Op), Spec.check (Spec.SSt.init m) ops (run (St.init m) ops).2 = true := by
+  intro m ops
+  rw [← absS_init m]
+  exact check_run ops _ (inv_init m)
+
+/-- the checker also tracks the model state exactly: after any operation of any reachable state it is in the
+state corresponding (`absS`) to the model's (queue = unsent bytes, counters, pending futures, closed flag) -/
+theorem checker_tracks_model (m : Option Nat) (ops : List Op) (op : Op) :
+    Spec.sstep (absS (run (St.init m) ops).1) op
+        ((step (run (St.init m) ops).1 op).2.1, (step (run (St.init m) ops).1 op).2.2)
+      = some (absS (step (run (St.init m) ops).1 op).1) :=
+  sstep_step _ op (run_spec ops _ (inv_init m)).inv
+
+/-! non-vacuity: the checker is not trivially `true` — it rejects a trace that resolves a future before its
+bytes are out, and one that sends bytes out of order -/
+example : Spec.check (Spec.SSt.init none) [.write [1, 2] [.acc 1]] [(.fut 0, [.sent [1], .resolved 0])] = false := by
+  decide
+example : Spec.check (Spec.SSt.init none) [.write [1, 2] [.acc 1]] [(.fut 0, [.sent [2]])] = false := by decide
+example : Spec.check (Spec.SSt.init none) [.write [1, 2] [.acc 1], .writable [.fail]]
+    (run (St.init none) [.write [1, 2] [.acc 1], .writable [.fail]]).2 = true := by decide
 
 end TornadoModel.C12
